@@ -142,6 +142,11 @@ def _from(alg, keys, vals):
 
 
 def rand_index(rng, shape):
+    if len(shape) >= 3 and rng.random() < 0.2:
+        # two advanced indices separated by a slice (numpy then moves the broadcast axis to the front of the result)
+        n0, n2 = shape[0], shape[2]
+        first = sorted(rng.sample(range(n0), rng.randint(1, n0)))
+        return (first, slice(None), rng.randrange(n2)) if rng.random() < 0.5 else (rng.randrange(n0), slice(None), sorted(rng.sample(range(n2), rng.randint(1, n2))))
     if rng.random() < 0.15:
         # a list index selects several entries of the first trailing axis (numpy fancy indexing)
         n = shape[0]
@@ -213,13 +218,14 @@ def index_case(ctx, alg, iso, cfg, name):
     canon = tuple(alg.canon2bin.values())
     op = rng.choice(METHODS + UNARY_ARR + list(INFIX))
     unary = op in UNARY_ARR
-    shape = rng.choice([(3,), (4,), (2, 3), (3, 2)])
+    shape = rng.choice([(3,), (4,), (2, 3), (3, 2), (2, 3, 2)])
     container = rng.choice(['ndarray', 'list', 'list', 'tuple'])
     cap = 3 if op in ('sw', 'proj', 'div', 'inv', '>>', '@', '/') else 4
     kx = gen.random_subset(rng, canon, cap, 1)
     ky = gen.random_subset(rng, canon, cap, 1)
     X = array_mv(rng, alg, kx, shape, container)
-    Y = array_mv(rng, alg, ky, shape, rng.choice(['ndarray', 'list']) if rng.random() < 0.3 else container)
+    container_y = rng.choice(['ndarray', 'list']) if rng.random() < 0.3 else container
+    Y = array_mv(rng, alg, ky, shape, container_y)
     idx = rand_index(rng, shape)
     cid = [name, 'index', op, list(kx), list(ky), list(shape), container, idx_repr(idx)]
     if not ctx.want(cid):
@@ -264,7 +270,7 @@ def index_case(ctx, alg, iso, cfg, name):
     shapes_w = {k: np.shape(v) for k, v in gw.items()}
     shapes_p = {k: np.shape(v) for k, v in gp_.items()}
     if bad or any(shapes_w.get(k) != shapes_p.get(k) for k in set(gw) & set(gp_)):
-        ctx.violation('op(X, Y)[idx] != op(X[idx], Y[idx])', cid, config=cfg, op=op, shape=list(shape), container=container,
+        ctx.violation('op(X, Y)[idx] != op(X[idx], Y[idx])', cid, config=cfg, op=op, shape=list(shape), container=container, container_y=container_y,
                       index=idx_repr(idx), blades=[alg.bin2canon[k] for k in bad[:6]],
                       indexed_result=show_elem({k: gw.get(k) for k in bad[:3]}), result_of_indexed=show_elem({k: gp_.get(k) for k in bad[:3]}))
 
